@@ -4,6 +4,9 @@
 
 package types
 
+// values are built once and never changed (checked: every store to these fields initialises a fresh object)
+//@ immutable XText::native, XNumber::native, XDateTime::native
+
 // history token: x.Call(env, params) returned `result` for a parameter list starting with `first`
 //@ pure fnCalled(x *XFunction, first XValue, result XValue) bool
 
@@ -69,11 +72,11 @@ package types
 //@   trusted
 //@   assigns nothing
 //@   ensures result != nil
-//@ func NewXText
-//@   trusted
-//@   assigns nothing
-//@   ensures result != nil
 //@ func NewXErrorf
 //@   trusted
 //@   assigns nothing
 //@   ensures result != nil
+
+//@ func NewXText
+//@   assigns nothing
+//@   ensures [built] result != nil && fresh(result) && result.native == value
